@@ -352,9 +352,14 @@ PROPS = {
         'functions': ['treadmill.vipfile:VipMgr._alloc', 'treadmill.vipfile:VipMgr.alloc', 'treadmill.vipfile:VipMgr.free',
                       'treadmill.vipfile:VipMgr.garbage_collect', 'treadmill.rulefile:RuleMgr.create_rule',
                       'treadmill.rulefile:RuleMgr.unlink_rule', 'treadmill.rulefile:RuleMgr.garbage_collect',
-                      'treadmill.endpoints:EndpointsMgr.create_spec', 'treadmill.endpoints:EndpointsMgr.unlink_spec'],
+                      'treadmill.endpoints:EndpointsMgr.create_spec', 'treadmill.endpoints:EndpointsMgr.unlink_spec',
+                      'treadmill.endpoints:EndpointsMgr.unlink_all'],
         'replay': 'c14.py',
+        'extra': [('bounded:owner-sequences', bounded_replay('c14.py', 'C14', 'VipMgr/RuleMgr/EndpointsMgr operation sequences on real directories', 1500, 60000))],
         'assumptions': [
+            'BOUNDED stand-in (labelled bounded): replay/c14.py drives the real managers through random operation sequences '
+            '(including a /29 address pool driven to its end and two generations of one instance releasing their endpoint '
+            'specs with unlink_all) against a reference owner map',
             'file-system dependency contract (pyvc/engine_fs.py): paths are (directory, name) pairs; symlink raises '
             'EEXIST and changes nothing iff the name exists; readlink/unlink/stat/listdir as documented there; one '
             'level of link following; no I/O error other than ENOENT/EEXIST/EINVAL',
